@@ -67,6 +67,7 @@ class DateForms(Sub):
     ambient = True
     name = "date_forms"
     kind = "enum"
+    case_timeout = 900.0
     n = {"quick": 0, "thorough": 0}
     shards = {"quick": 4, "thorough": 16}
     distinct_by_construction = True
@@ -125,7 +126,10 @@ def offset_str(kind, sg, oh, om):
 def dt_form_case(draw):
     o = draw(st.one_of(st.integers(FIRST, LAST), st.sampled_from([FIRST, LAST, D.date(2016, 2, 29).toordinal(), D.date(2016, 12, 31).toordinal(),
                                                                     D.date(2021, 1, 3).toordinal(), D.date(2018, 12, 31).toordinal()])))
-    return {"o": o, "dform": draw(st.sampled_from(["cal", "ord", "wk"])), "ext": draw(st.booleans()),
+    dform = draw(st.sampled_from(["cal", "ord", "wk", "wk"]))
+    if dform == "wk" and draw(st.booleans()):
+        o = max(577736, o - D.date.fromordinal(o).weekday())       # a Monday: the week can be written without its day
+    return {"o": o, "dform": dform, "ext": draw(st.booleans()),
             "h": draw(st.sampled_from([0, 23, 12]) | st.integers(0, 23)), "mi": draw(st.sampled_from([0, 59]) | st.integers(0, 59)),
             "s": draw(st.sampled_from([0, 59]) | st.integers(0, 59)),
             "frac": draw(st.text("0123456789", min_size=1, max_size=9)), "fsep": draw(st.sampled_from(".,")),
@@ -172,6 +176,8 @@ class DateTimeForms(Sub):
         key = {"cal": "cal", "ord": "ord", "wk": "wk"}[c["dform"]] + ("-ext" if c["ext"] else "-basic")
         if key not in forms:
             raise Skip("ISO week-year outside 1..9999")
+        if c["dform"] == "wk" and key + "-noday" in forms and c["o"] % 2:
+            key += "-noday"      # YYYY-Www / YYYYWww (the Monday of the week) followed by a time: a date form of its own in the parsers
         ds = forms[key]
         ts, tv = time_str(c)
         offkind = c["offkind"]
@@ -267,6 +273,7 @@ class Impossible(Sub):
     ambient = True
     name = "impossible_dates"
     kind = "enum"
+    case_timeout = 900.0
     n = {"quick": 0, "thorough": 0}
     shards = {"quick": 2, "thorough": 8}
     distinct_by_construction = True
